@@ -59,6 +59,7 @@ fn main() {
                 "rt" => text::gen_rt(&mut w, thorough, seed),
                 "helper" => helpers::gen(&mut w, thorough, seed),
                 "exec-accepted" => exec::gen_accepted(&mut w, thorough, seed),
+                "exec-engines" => exec::gen_engines(&mut w, thorough, seed),
                 "exec-long" => exec::gen_long(&mut w, thorough, seed),
                 _ => { eprintln!("unknown suite {suite}"); std::process::exit(2); }
             }
